@@ -596,7 +596,7 @@ def _prepare_czt_basis(N, M, K, shift, alpha, dtype, norm=False):
     h = np.zeros(K, dtype=dtype)
 
     # need to populate h piecewise, see Jurling2014 48c, 48d
-    start = -((N - M) // 2) + shift
+    start = -(N // 2 - M // 2) + shift  # distance between the origin samples N//2 (input) and M//2 (output)
     j = np.arange(-start, -start+M, dtype=dtype)  # do not need a "-1" because arange is naturally end-exclusive
     # j is an index variable
     h[:M] = np.pi * (j * j)
